@@ -187,6 +187,8 @@ def match_known(prop, viol, known):
             ok = False
         if ok and "text_regex" in m and not re.search(m["text_regex"], (viol.get("case") or {}).get("text", ""), re.S):
             ok = False
+        if ok and "text_sha256" in m and hashlib.sha256(((viol.get("case") or {}).get("text") or "").encode()).hexdigest() not in m["text_sha256"]:
+            ok = False
         if ok and "label_regex" in m and not re.search(m["label_regex"], (viol.get("case") or {}).get("label", "")):
             ok = False
         if ok and "site_regex" in m and not re.search(m["site_regex"], viol.get("site", viol.get("detail", ""))):
